@@ -19,6 +19,7 @@ func init() {
 			c.run("C16-R4", "GUARD-DOM: continuation only with junk tolerance; stripper slices only at proven indexes", c16R4)
 			c.run("C16-R5", "WHO-CALLS: junk tolerance forced by tunnel / config", c16R5)
 			c.run("C16-R7", "GUARD-DOM: the relay frames lines for a Windows side exactly when that side is Windows and the tunnel is not in use", c16R7)
+			c.run("C16-R8", "WHO-CALLS: protocol-side decisions use the environment predicate, not the host-OS predicate", c16WinPredicates)
 			c.run("C16-R6", "PAIR: the Windows reader's duplicate flag is consumed by the first kept letter", c16R6)
 		})
 }
@@ -824,4 +825,43 @@ func evalBoolUnder(v ssa.Value, as []assumption, reach map[*ssa.BasicBlock]bool,
 		return val, !first
 	}
 	return false, false
+}
+
+// c16WinPredicates: two predicates exist — isRunningOnWindows (this process's OS) and isWindowsEnvironment (the OS, or a
+// Windows console somewhere on the path as announced by SetAffectedByWindows). Everything that decides how protocol lines
+// and trigger ids are read or written must use the second one; the first is for OS facts (errno values, console EOF,
+// dialogs, terminal setup). The set of protocol-side functions is frozen from reading them.
+func c16WinPredicates(c *Ctx) {
+	protocolSide := map[string]bool{
+		"trzszDetector.isRepeatedID": true, "trzszTransfer.recvLine": true, "trzszTransfer.sendAction": true, "TrzszFilter.handleTrzsz": true,
+	}
+	osSide := map[string]string{
+		"detectDragFiles": "which path scanner to use", "zenityErrorWithTips": "dialog", "TrzszFilter.chooseDownloadPath": "dialog", "TrzszFilter.chooseUploadPaths": "dialog",
+		"TrzszFilter.wrapInput": "console EOF is answered with Ctrl-Z", "TrzszRelay.wrapInput": "console EOF is answered with Ctrl-Z",
+		"trzszTransfer.resetTerm": "terminal restore", "trzszTransfer.doCreateFile": "errno values", "TrzMain": "console setup / binary on a Windows server", "TszMain": "console setup / binary on a Windows server",
+	}
+	seenEnv := map[string]bool{}
+	for _, f := range c.AllFns {
+		if !c.inPkg(f) {
+			continue
+		}
+		fname := c.fnName(f)
+		for _, ci := range callsIn(f, idIs("trzsz.isRunningOnWindows", "trzsz.isWindowsEnvironment")) {
+			id := calleeID(ci.Common())
+			if id == "trzsz.isWindowsEnvironment" {
+				seenEnv[fname] = true
+				continue
+			}
+			if protocolSide[fname] {
+				c.bad(fname+"/windows-predicate", c.ipos(ci), "a protocol-side decision uses isRunningOnWindows: a Windows console announced through SetAffectedByWindows (non-Windows host) is ignored here")
+				continue
+			}
+			if _, ok := osSide[fname]; !ok && !strings.HasPrefix(fname, "isWindowsEnvironment") {
+				c.undecided(fname+"/windows-predicate", "a new caller of isRunningOnWindows: classify it as OS-side or protocol-side")
+			}
+		}
+	}
+	for fn := range protocolSide {
+		c.check(seenEnv[fn], fn+"/uses-environment-predicate", "", "this protocol-side function asks isWindowsEnvironment", "this protocol-side function no longer asks isWindowsEnvironment")
+	}
 }
